@@ -45,6 +45,19 @@ def processed : List String → Nat
   | _ :: status :: rest => (if isSkip status then 0 else 1) + processed rest
   | _ => 0
 
+/-- `c13.pipe` (the action inside a real pipeline): `in=<n> out=<k> <status>×k left=<m>`; every
+    event handed to the output must be `ok` and no event may be left in flight. A panic on the
+    processor goroutine ends the child process: the result is then `crash:…`, which fails here. -/
+def pipeOk (impl : List String) : Bool :=
+  match impl with
+  | ["cfg-rejected"] => true
+  | i :: o :: rest =>
+    i.startsWith "in=" && o.startsWith "out=" &&
+      (match rest.reverse with
+       | l :: sts => l == "left=0" && sts.all (· == "ok")
+       | [] => false)
+  | _ => false
+
 /-- modelled cores: the implementation must have produced a value, not a panic -/
 def coreOk (impl : List String) : Bool :=
   match impl with
